@@ -151,7 +151,7 @@ fn build_compare_op(
                     const _: () = {
                         #[allow(clippy::double_parens)]
                         #[allow(unused_parens)]
-                        fn _f #impl_g (__this: &#this_ty) #wheres {
+                        fn __f #impl_g (__this: &#this_ty) #wheres {
                             #body
                         }
                     };
@@ -260,8 +260,8 @@ fn build_partial_eq_expr(
     let build_expr_by_eq = |by: &Expr| {
         quote! {
             {
-                fn #fn_ident<__T: ?::core::marker::Sized>(this: &__T, other: &__T, eq: impl ::core::ops::Fn(&__T, &__T) -> bool) -> bool {
-                    eq(this, other)
+                fn #fn_ident<__T: ?::core::marker::Sized>(__this: &__T, __other: &__T, __eq: impl ::core::ops::Fn(&__T, &__T) -> bool) -> bool {
+                    __eq(__this, __other)
                 }
                 #fn_ident(&#this, &#other, #by)
             }
@@ -287,8 +287,8 @@ fn build_partial_eq_expr(
     if let Some(by) = &cmp.partial_ord.by {
         return Ok(quote! {
             {
-                fn #fn_ident<__T: ?::core::marker::Sized>(this: &__T, other: &__T, partial_cmp: impl ::core::ops::Fn(&__T, &__T) -> ::core::option::Option<::core::cmp::Ordering>) -> bool {
-                    partial_cmp(this, other) == ::core::option::Option::Some(::core::cmp::Ordering::Equal)
+                fn #fn_ident<__T: ?::core::marker::Sized>(__this: &__T, __other: &__T, __partial_cmp: impl ::core::ops::Fn(&__T, &__T) -> ::core::option::Option<::core::cmp::Ordering>) -> bool {
+                    __partial_cmp(__this, __other) == ::core::option::Option::Some(::core::cmp::Ordering::Equal)
                 }
                 #fn_ident(&#this, &#other, #by)
             }
@@ -302,8 +302,8 @@ fn build_partial_eq_expr(
     if let Some(by) = &field.hattrs.cmp.ord.by {
         return Ok(quote! {
             {
-                fn #fn_ident<__T: ?::core::marker::Sized>(this: &__T, other: &__T, cmp: impl ::core::ops::Fn(&__T, &__T) -> ::core::cmp::Ordering) -> bool {
-                    cmp(this, other) == ::core::cmp::Ordering::Equal
+                fn #fn_ident<__T: ?::core::marker::Sized>(__this: &__T, __other: &__T, __cmp: impl ::core::ops::Fn(&__T, &__T) -> ::core::cmp::Ordering) -> bool {
+                    __cmp(__this, __other) == ::core::cmp::Ordering::Equal
                 }
                 #fn_ident(&#this, &#other, #by)
             }
@@ -525,11 +525,11 @@ fn build_partial_ord_expr(
         return Ok(quote! {
             {
                 fn #fn_ident<__T: ?::core::marker::Sized>(
-                    this: &__T,
-                    other: &__T,
-                    partial_cmp: impl ::core::ops::Fn(&__T, &__T) -> ::core::option::Option<::core::cmp::Ordering>)
+                    __this: &__T,
+                    __other: &__T,
+                    __partial_cmp: impl ::core::ops::Fn(&__T, &__T) -> ::core::option::Option<::core::cmp::Ordering>)
                  -> ::core::option::Option<::core::cmp::Ordering> {
-                    partial_cmp(this, other)
+                    __partial_cmp(__this, __other)
                 }
                 #fn_ident(&#this, &#other, #by)
             }
@@ -544,11 +544,11 @@ fn build_partial_ord_expr(
         return Ok(quote! {
             {
                 fn #fn_ident<__T: ?::core::marker::Sized>(
-                    this: &__T,
-                    other: &__T,
-                    cmp: impl ::core::ops::Fn(&__T, &__T) -> ::core::cmp::Ordering)
+                    __this: &__T,
+                    __other: &__T,
+                    __cmp: impl ::core::ops::Fn(&__T, &__T) -> ::core::cmp::Ordering)
                  -> ::core::option::Option<::core::cmp::Ordering> {
-                    ::core::option::Option::Some(cmp(this, other))
+                    ::core::option::Option::Some(__cmp(__this, __other))
                 }
                 #fn_ident(&#this, &#other, #by)
             }
@@ -664,11 +664,11 @@ fn build_ord_expr(
         return Ok(quote! {
             {
                 fn #fn_ident<__T: ?::core::marker::Sized>(
-                    this: &__T,
-                    other: &__T,
-                    cmp: impl ::core::ops::Fn(&__T, &__T) -> ::core::cmp::Ordering)
+                    __this: &__T,
+                    __other: &__T,
+                    __cmp: impl ::core::ops::Fn(&__T, &__T) -> ::core::cmp::Ordering)
                  -> ::core::cmp::Ordering {
-                    cmp(this, other)
+                    __cmp(__this, __other)
                 }
                 #fn_ident(&#this, &#other, #by)
             }
@@ -762,10 +762,10 @@ fn build_hash_expr(
         return Ok(quote! {
             {
                 fn #fn_ident<__T: ?::core::marker::Sized, __H: ::core::hash::Hasher>(
-                    this: &__T,
-                    state: &mut __H,
-                    hash: impl ::core::ops::Fn(&__T, &mut __H)) {
-                    hash(this, state)
+                    __this: &__T,
+                    __state: &mut __H,
+                    __hash: impl ::core::ops::Fn(&__T, &mut __H)) {
+                    __hash(__this, __state)
                 }
                 #fn_ident(&#this, __state, #by)
             }
@@ -1138,8 +1138,8 @@ fn build_to_index_fn(variants: &[VariantEntry]) -> TokenStream {
 
 fn build_eq_checker(this: TokenStream) -> TokenStream {
     quote_spanned!(this.span()=>{
-        fn _eq<__T: ::core::cmp::Eq + ?::core::marker::Sized>(_this: &__T) { }
-        _eq(&(#this))
+        fn __eq<__T: ::core::cmp::Eq + ?::core::marker::Sized>(__this: &__T) { }
+        __eq(&(#this))
     })
 }
 
